@@ -387,7 +387,22 @@ pub fn check_c17(cx: &C17Ctx, out: &mut Outcome) {
                         Some(t) if t <= first.0 => (t, n),
                         _ => (0, n + 1),
                     };
-                    let late = w.frames_d[p].iter().filter(|&&t| t >= from_t && t <= r.0).count();
+                    let mut late = w.frames_d[p].iter().filter(|&&t| t >= from_t && t <= r.0).count();
+                    // a frame that was read into the endpoint's buffer before the reset may still have been *processed* after
+                    // it (the endpoint stops processing while it cannot write, e.g. an acknowledgement it owes): only DATA the
+                    // application had already been handed before the reset was provably processed before it
+                    if late < need && from_t > 0 {
+                        let seen_bytes: usize = app.map(|a| a.key).map(|k| cx.events.iter().filter(|x| x.side == e && x.key == k && x.step <= from_t).filter_map(|x| if let Api::RecvData { len, .. } = &x.api { Some(*len) } else { None }).sum()).unwrap_or(0);
+                        let mut acc = 0usize;
+                        for f in cx.tap.frames.iter().filter(|f| f.from != e && f.raw.stream == sid && f.t_d.map(|d| d < from_t).unwrap_or(false)) {
+                            if let Ok(Frame::Data { data, .. }) = &f.frame {
+                                acc += data.len();
+                                if acc > seen_bytes {
+                                    late += 1;
+                                }
+                            }
+                        }
+                    }
                     if late < need {
                         out.fail(
                             "C17",
